@@ -14,6 +14,8 @@ from fractions import Fraction
 import numpy
 
 from .core import Driver, frac
+from . import c11_text
+from .c11_text import hexs, spellings
 
 LEVEL_TEXT = ("Proof: for every well-formed file (decidable predicate; any cell order, holes, flags, 1..M magnitude bins, either "
               "column order) the loaded forecast returns a row's rate for every point of the row's half-open space-magnitude box "
@@ -23,11 +25,18 @@ LEVEL_TEXT = ("Proof: for every well-formed file (decidable predicate; any cell 
               "spatial_counts(cartesian=True) shows each cell's count at its bounding-box node (NaN elsewhere), is scaled "
               "absolutely and sums to the total; calls that only read the forecast (target_event_rates with and without "
               "scale, get_rates, sum, both marginals, data) leave it unchanged and return a function of base and the factor in "
-              "force. Unbounded in rows and histories (kernel-checked). Tied to the code by generated files.")
+              "force. Unbounded in rows and histories (kernel-checked). Text layer: the forecast is also computed by the model "
+              "from the CHARACTERS of the file (lines, comments, blank-separated tokens, every decimal token parsed and rounded "
+              "to the nearest double, the cell size from the model's repr decimals); every well-formed numeral parses to the "
+              "number it denotes, the parsed double is correctly rounded, any spelling of a decimal within half a unit of the "
+              "17th significant digit of x loads as x, repr's decimal reads back, and the property's lookup statements hold for "
+              "the forecast loaded from the text. Tied to the code by generated files.")
 LEVEL_NOTE = ("The region's point lookup and bin1d_vec are modelled by their exact half-open meaning (C01/C02 treat the float bin "
-              "formula); probes within 1e-10 relative below an edge may go either way. numpy.loadtxt/genfromtxt tokenisation, "
-              "mercantile tile bounds and the decimal-year arithmetic are inputs (checked numerically), not modelled. Sums are "
-              "compared to 1e-9 relative because numpy's summation order is not modelled.")
+              "formula); probes within 1e-10 relative below an edge may go either way. numpy.loadtxt is modelled for the "
+              "Cartesian .dat layout (ASCII digits, no infinities / NaN; the sign of a zero is not represented); "
+              "numpy.genfromtxt of the quadtree layouts, mercantile tile bounds and the decimal-year arithmetic are inputs "
+              "(checked numerically), not modelled. ndarray scale factors are judged by the oracle only (the model has one "
+              "rational factor). Sums are compared to 1e-9 relative because numpy's summation order is not modelled.")
 DESIGN_REF = "DESIGN.md §4 C11"
 TECHNIQUE = "Lean 4 proof over an exact executable model + differential correspondence on generated forecast files + exact oracle"
 
@@ -42,10 +51,23 @@ THEOREMS = ["ForecastFile.load_eq", "ForecastFile.load_some_of_wellFormed", "For
             "ForecastFile.spatialCounts_runOps", "ForecastFile.cartesian_scale_absolute", "ForecastFile.cartesian_entry",
             "ForecastFile.cartesian_masked", "ForecastFile.cartesian_nansum", "ForecastFile.cartesian_sum_total",
             "ForecastFile.reads_leave_forecast", "ForecastFile.reads_leave_data", "ForecastFile.read_observation",
-            "ForecastFile.read_twice_same", "ForecastFile.target_rates_runOps"]
+            "ForecastFile.read_twice_same", "ForecastFile.target_rates_runOps",
+            # the text layer (Properties/C11_Text.lean): decimal tokens -> doubles, repr, the forecast loaded from characters
+            "ForecastFile.Text.toF64_spec", "ForecastFile.Text.token_correctly_rounded",
+            "ForecastFile.Text.float_correctly_rounded", "ForecastFile.Text.repr_reads_back",
+            "ForecastFile.Text.seventeen_digits_read_back", "ForecastFile.Text.near_reads_back",
+            "ForecastFile.Text.loadText_eq", "ForecastFile.Text.loadText_some", "ForecastFile.Text.rate_lookup_text",
+            "ForecastFile.Text.flag0_outside_text", "ForecastFile.Text.mags_text", "ForecastFile.Text.total_text",
+            "ForecastFile.Text.dh_text", "ForecastFile.Text.dispatch_ascii_iff", "ForecastFile.Text.dispatch_loader_iff",
+            "ForecastFile.Text.exText_parses", "ForecastFile.Text.numeral_parses", "ForecastFile.Text.numeral_token_rounded",
+            "ForecastFile.Text.numeral_17_digits_reads_back"]
 TRUSTED = ["Lean 4.33 kernel", "axioms: propext, Classical.choice, Quot.sound at most",
-           "numpy.loadtxt / genfromtxt return the doubles written with repr(); numpy.unique(return_index) + sort gives the "
-           "distinct rows in first-appearance order; reshape is row-major",
+           "numpy.loadtxt is MODELLED (Model/DecimalText.lean: lines, '#' comments, blank-separated tokens, strtod grammar, "
+           "round-to-nearest-even) and compared with numpy on every Cartesian file and on ~4000 single tokens per run; "
+           "numpy.genfromtxt (quadtree layouts) returns the doubles written with repr(); numpy.unique(return_index) + sort "
+           "gives the distinct rows in first-appearance order; reshape is row-major",
+           "repr(x) is the shortest decimal that rounds to x, nearest to x among those (DecimalText.reprValue; compared with "
+           "Decimal(repr(x)) on every run; that it reads back is proved)",
            "CartesianGrid2D.get_index_of / bin1d_vec / QuadtreeGrid2D._find_location have the exact half-open meaning up to the "
            "documented round-off band (subject of C01, C02, C17)",
            "Soft64.fl64 is binary64 rounding (validated against numpy on every run); float(Decimal) is correctly rounded",
@@ -63,7 +85,16 @@ RULE = ("generated files: decimal lattices (7 spacings, negative / positive / ze
         "magnitude_counts, data, accessors) inserted before, between and after them, each made twice with a bit-for-bit "
         "snapshot of data around every call; ALL views (data, sum, event_count, both layouts of the spatial marginal, the "
         "magnitude marginal, get_rates) are compared with base x factor before the history and after every call; malformed "
-        "files whose reshape must fail. A file is "
+        "files whose reshape must fail. One third of the Cartesian files are written as literal text lines: every number "
+        "in a random spelling strtod reads as the same double (%.17e, %.16e, %.18g, %.25g, upper-case E, explicit +, leading / "
+        "trailing zeros, bare point, moved point), several flag spellings, runs of blanks / tabs, leading / trailing blanks, "
+        "and 'messy' files with comment lines, comment tails, blank lines, CRLF, no final newline; every Cartesian file is "
+        "also given to the model as characters (c11_text). 15 % of Cartesian files are loaded through a caller-supplied "
+        "loader (any extension), load_ascii or from_custom; 20 % are followed by a sibling file on the same cells with other "
+        "magnitude bins, and the two most recent forecasts are re-checked after every later load; 15 % of scale calls pass "
+        "an ndarray factor (per magnitude bin, per cell, per bin, 0-d, numpy scalar); reads include get_rates(ret_inds=True) "
+        "and get_rates(data=A); 60 option combinations of load_gridded_forecast (extension x existence x loader kind); "
+        "~4000 decimal tokens (good spellings, malformed, halfway cases) against float() / int() / numpy.loadtxt / repr. A file is "
         "non-trivial when it has >= 2 cells and >= 2 magnitude bins or a hole or a zero flag; distinct by (rows, ops).")
 
 EPS_BAND = Fraction(1, 10 ** 10)
@@ -123,7 +154,7 @@ def gen_mags(rng):
 
 # read-only calls of a history: target_event_rates(catalog, scale=True / False), get_rates, sum, event_count,
 # spatial_counts(), spatial_counts(cartesian=True), magnitude_counts(), data, and the small accessors
-READS = ["tr1", "tr1", "tr0", "gr", "sum", "ec", "sc", "scc", "scc", "mc", "data", "misc"]
+READS = ["tr1", "tr1", "tr0", "gr", "gri", "grd", "sum", "ec", "sc", "scc", "scc", "mc", "data", "misc"]
 
 
 def gen_ops(rng):
@@ -134,6 +165,11 @@ def gen_ops(rng):
     ops = []
     for _ in range(n):
         if rng.random() < 0.55:
+            if rng.random() < 0.15:
+                # scale() documents "int, float, or ndarray": one weight per magnitude bin / per cell / per bin, a 0-d
+                # array, a numpy scalar (the array is rebuilt from the seed when the case is run)
+                ops.append(["s", "arr:" + rng.choice(["row", "col", "full", "0d", "np64", "row2d"]) + ":%d" % rng.randrange(10 ** 6)])
+                continue
             v = rng.choice([0.5, 2.0, 1.0, 0.0, 1e-3, 3.0, 0.1, rng.uniform(0, 5), 2, 1, 7])
             ops.append(["s", "int:%d" % v if isinstance(v, int) else hx(v)])
         else:
@@ -179,15 +215,64 @@ def gen_cart_case(rng, tier):
             first4 = [lat0, lat1, lon0, lon1] if swap else [lon0, lon1, lat0, lat1]
             rows.append([hx(v) for v in first4 + [z0, z1, a, b, gen_rate(rng)]] + [flag])
     start, end, ops = gen_ops(rng)
-    case = dict(layout="cart", swap=swap, rows=rows, fmt=rng.choice(["repr", "repr", "%.17g", "tab"]),
-                start=start, end=end, ops=ops, malformed=None)
+    case = dict(layout="cart", swap=swap, rows=rows, fmt=rng.choice(["repr", "repr", "%.17g", "tab", "lines", "lines"]),
+                start=start, end=end, ops=ops, malformed=None, aware=rng.random() < 0.2)
     if rng.random() < 0.06 and len(rows) > 1:
         # malformed: one row dropped / duplicated at the end -> the (cells, magnitudes) reshape must fail, or a stray row
         if rng.random() < 0.5 and len(m0) > 1:
             case["rows"] = rows[:-1]
             case["malformed"] = "short-block"
+    if case["fmt"] == "lines":
+        case["lines"], case["eol"] = gen_lines(rng, case["rows"])
+    if rng.random() < 0.15:
+        # other ways into the same loader: a caller-supplied loader (any file extension), from_custom, load_ascii itself;
+        # file names with several dots / underscores / upper-case
+        kind = rng.choice(["loader", "loader", "from_custom", "load_ascii", "default"])
+        stem = rng.choice(["f", "a.b", "model_2020-01-01", "x.y.z", "UPPER", "helmstetter_et_al.hkj.aftershock-fromXML", "d.dat"])
+        ext = ".dat" if kind == "default" else rng.choice([".dat", ".txt", ".forecast", "", ".DAT", ".dat.bak", ".csv"])
+        case["via"] = dict(kind=kind, fname=stem + ext)
     case["probes"] = gen_probes(rng, case, tier)
     return case
+
+
+def gen_lines(rng, rows):
+    """the file as literal text lines: every number in one of the spellings strtod reads as the same double (exponent
+    notation, upper-case E, explicit +, leading / trailing zeros, bare point, 17..25 digits), columns separated by runs of
+    blanks / tabs, optional leading / trailing blanks, and (style 'messy') comment lines, comment tails, blank lines,
+    CRLF line ends, a missing final newline.  float(token) == the intended double is checked for every token."""
+    messy = rng.random() < 0.4
+    how = rng.choice(["any", "any", "%.17e", "csep1"])
+    lines = []
+    if messy and rng.random() < 0.5:
+        lines.append("# Lon_0 Lon_1 Lat_0 Lat_1 z_0 z_1 Mag_0 Mag_1 Rate Flag")
+    for r in rows:
+        toks = []
+        for j, x in enumerate(r[:9]):
+            v = fh(x)
+            if how == "%.17e":
+                t = "%.17e" % v
+            elif how == "csep1":
+                t = repr(v) if j != 8 else "%.17e" % v
+            else:
+                t = rng.choice(spellings(v)) if rng.random() < 0.7 else repr(v)
+            if float(t) != v:
+                raise RuntimeError(f"spelling {t!r} does not read as {v!r}")
+            toks.append(t)
+        f = int(r[9])
+        toks.append(rng.choice([str(f), str(f), "%d.0" % f, "%.6e" % f, "%d." % f, "+%d" % f if f else "0", "0%d" % f]))
+        sep = rng.choice([" ", "\t", "  ", " \t ", "   "]) if rng.random() < 0.3 else None
+        line = (sep or " ").join(toks) if sep else "".join(t + rng.choice([" ", " ", "\t", "  ", " \t"]) for t in toks).rstrip()
+        if rng.random() < 0.2:
+            line = rng.choice([" ", "\t", "   "]) + line
+        if rng.random() < 0.2:
+            line = line + rng.choice([" ", "\t", "  "])
+        if messy and rng.random() < 0.1:
+            line = line + rng.choice([" # checked", "# x", " #"])
+        lines.append(line)
+        if messy and rng.random() < 0.08:
+            lines.append(rng.choice(["", "   ", "# comment", "#", "\t", "  # 1 2 3"]))
+    eol = rng.choice(["\n", "\n", "\r\n", "\n-nofinal"]) if messy else "\n"
+    return lines, eol
 
 
 _QUAD_CACHE = {}
@@ -223,6 +308,25 @@ def gen_quad_case(rng, tier, layout):
     case = dict(layout=layout, swap=False, rows=rows, qk=qk, fmt="repr", start=start, end=end, ops=ops, malformed=None)
     case["probes"] = gen_probes(rng, case, tier)
     return case
+
+
+def array_factor(spec, shape):
+    """the ndarray factor of an op 'arr:<kind>:<seed>' for a forecast of the given (cells, magnitudes) shape"""
+    _, kind, seed = spec.split(":")
+    g = numpy.random.default_rng(int(seed))
+    vals = numpy.array([0.5, 2.0, 0.25, 1.0, 3.0, 0.0, 1.5, 0.1, 7.0])
+    n, m = shape
+    if kind == "row":
+        return g.choice(vals, size=(m,))
+    if kind == "row2d":
+        return g.choice(vals, size=(1, m))
+    if kind == "col":
+        return g.choice(vals, size=(n, 1))
+    if kind == "full":
+        return g.choice(vals, size=(n, m))
+    if kind == "0d":
+        return numpy.array(float(g.choice(vals)))
+    return numpy.float64(g.choice(vals))
 
 
 def cells_of(case):
@@ -345,6 +449,12 @@ class Oracle:
         k = max(i for i, e in enumerate(self.mag_edges) if e <= m)
         return self.table[(hit, self.mags[k])][0]
 
+    def locate(self, lon, lat, m):
+        """(cell index in file order, magnitude index) of an inside point, by exact comparisons"""
+        lon, lat, m = Fraction(lon), Fraction(lat), Fraction(m)
+        i = next(k for k, (fc, c) in enumerate(self.fcells) if fc[0] <= lon < fc[1] and fc[2] <= lat < fc[3])
+        return i, max(k for k, e in enumerate(self.mag_edges) if e <= m)
+
     def alts(self, v, edges):
         out = [v]
         if self.band:
@@ -352,6 +462,12 @@ class Oracle:
                 if 0 < e - v <= EPS_BAND * max(1, abs(v)):
                     out.append(e)
         return out
+
+    def in_band(self, lon, lat, m):
+        """within the documented round-off band just below a cell or magnitude edge: either side's bin may be reported"""
+        lon, lat, m = Fraction(lon), Fraction(lat), Fraction(m)
+        return len(self.alts(lon, self.lon_edges)) > 1 or len(self.alts(lat, self.lat_edges)) > 1 or \
+            len(self.alts(m, self.mag_edges)) > 1
 
     def allowed(self, lon, lat, m):
         lon, lat, m = Fraction(lon), Fraction(lat), Fraction(m)
@@ -365,6 +481,45 @@ class Oracle:
         return res
 
 
+# ----------------------------------------------------------------------------- state shared between loads
+# Forecasts loaded earlier in the same process stay alive and are looked at again after every later load: a forecast's
+# magnitudes and rates are its own file's, whatever else has been loaded since (same cells with other magnitude bins, ...)
+LIVE = []
+
+
+def recheck_live(run, case):
+    for prev_case, chk in list(LIVE):
+        msg = chk()
+        if msg:
+            run.oracle_failure(dict(kind="two-loads", first=prev_case, second=case),
+                               f"after loading a second file, the forecast loaded first no longer matches its own file: {msg}")
+            LIVE.clear()
+            return False
+    return True
+
+
+def sibling_case(rng, case, tier):
+    """another file on exactly the same cells (bounds, order, flags, column order, cell size) with other magnitude bins / rates"""
+    seen, first4 = set(), []
+    for r in case["rows"]:
+        k = tuple(r[:4])
+        if k not in seen:
+            seen.add(k)
+            first4.append((r[:6], r[9]))
+    old = sorted({r[6] for r in case["rows"]})
+    for _ in range(20):
+        m0, m1 = gen_mags(rng)
+        if sorted(hx(v) for v in m0) != old:
+            break
+    rows = [list(head) + [hx(a), hx(b), hx(gen_rate(rng)), flag] for head, flag in first4 for a, b in zip(m0, m1)]
+    start, end, ops = gen_ops(rng)
+    sib = dict(layout="cart", swap=case["swap"], rows=rows, fmt=case["fmt"], start=start, end=end, ops=ops, malformed=None)
+    if sib["fmt"] == "lines":
+        sib["lines"], sib["eol"] = gen_lines(rng, rows)
+    sib["probes"] = gen_probes(rng, sib, tier)
+    return sib
+
+
 # ----------------------------------------------------------------------------- one file
 def fmt_num(x, style):
     if style == "%.17g":
@@ -375,7 +530,16 @@ def fmt_num(x, style):
 def write_file(case, tmpdir, tag):
     lay = case["layout"]
     fn = os.path.join(tmpdir, f"f{tag}." + ("csv" if lay == "qcsv" else "dat"))
+    if case.get("via"):
+        os.makedirs(os.path.join(tmpdir, f"d{tag}"), exist_ok=True)
+        fn = os.path.join(tmpdir, f"d{tag}", case["via"]["fname"])
     sep = "\t" if case["fmt"] == "tab" else " "
+    if lay == "cart" and case["fmt"] == "lines":
+        eol = case.get("eol", "\n")
+        text = eol[:-8].join(case["lines"]) if eol.endswith("-nofinal") else "".join(l + eol for l in case["lines"])
+        with open(fn, "w", newline="") as f:
+            f.write(text)
+        return fn
     with open(fn, "w") as f:
         if lay == "cart":
             for r in case["rows"]:
@@ -406,7 +570,25 @@ def load_impl(case, fn):
     from csep.utils import readers
     start = datetime.datetime.fromisoformat(case["start"])
     end = datetime.datetime.fromisoformat(case["end"])
+    if case.get("aware"):      # UTC-aware start / end (the test dates are then aware too)
+        start, end = start.replace(tzinfo=datetime.timezone.utc), end.replace(tzinfo=datetime.timezone.utc)
     if case["layout"] == "cart":
+        via = (case.get("via") or {}).get("kind", "default")
+        if via == "loader":
+            seen = {}
+
+            def my_loader(fname, **kw):
+                seen["args"] = (fname, sorted(kw))
+                return GriddedForecast.load_ascii(fname, **kw)
+            fc = csep.load_gridded_forecast(fn, loader=my_loader, swap_latlon=case["swap"], start_date=start, end_date=end)
+            return fc       # whether the keywords (swap_latlon, dates) reached the loader shows in the forecast itself
+        if via == "load_ascii":
+            return GriddedForecast.load_ascii(fn, start_date=start, end_date=end, swap_latlon=case["swap"])
+        if via == "from_custom":
+            def pieces(fname, swap):
+                f0 = GriddedForecast.load_ascii(fname, swap_latlon=swap)
+                return f0._data, f0.region, f0.magnitudes
+            return GriddedForecast.from_custom(pieces, func_args=(fn, case["swap"]), start_time=start, end_time=end)
         return csep.load_gridded_forecast(fn, swap_latlon=case["swap"], start_date=start, end_date=end)
     loader = readers.quadtree_ascii_loader if case["layout"] == "qascii" else readers.quadtree_csv_loader
     return GriddedForecast.from_custom(loader, func_args=(fn,), start_time=start, end_time=end)
@@ -427,6 +609,9 @@ def probe_impl(fc, lon, lat, m):
 def run_case(run, drv, pending, case, tmpdir, tag, tier_quick=True):
     lay = case["layout"]
     fn = write_file(case, tmpdir, tag)
+    text = open(fn, newline="").read() if lay == "cart" else None
+    if case.get("fmt") == "lines":
+        run.count("file-text:literal-lines" + (":" + repr(case.get("eol")) if case.get("eol") != "\n" else ""))
     orc = Oracle(case)
     rows = case["rows"]
     raw0 = [fh(x) for x in rows[0][:4]]
@@ -434,6 +619,8 @@ def run_case(run, drv, pending, case, tmpdir, tag, tier_quick=True):
     if float(dlo) != raw0[2] or float(dhi) != raw0[3]:
         raise RuntimeError("repr does not read back")
     run.count("layout:" + lay + (":swap" if case["swap"] else ""))
+    if case.get("via"):
+        run.count("entry:" + case["via"]["kind"] + ":" + (os.path.splitext(case["via"]["fname"])[1] or "no-extension"))
     # ---- load
     try:
         fc = load_impl(case, fn)
@@ -449,11 +636,14 @@ def run_case(run, drv, pending, case, tmpdir, tag, tier_quick=True):
     if case["malformed"]:
         run.count("malformed")
         i = drv.ask(line.replace(" OPS", " -"))
-        pending.append((case, i, None if err else "loaded", None, None))
+        it = drv.ask(" ".join(["c11_text", "1" if case["swap"] else "0", hexs(text), line.split(" ")[5], "-"])) if text else None
+        pending.append((case, i, None if err else "loaded", None, None, it))
         run.case(summary, None)
         return
     if err:
         run.oracle_failure(case, f"loading a well-formed file raised {err}")
+        return
+    if not recheck_live(run, case):
         return
     # ---- structure: magnitudes, cells, flags, data layout
     if numpy.asarray(fc.magnitudes).dtype.kind not in "fiu":
@@ -520,10 +710,12 @@ def run_case(run, drv, pending, case, tmpdir, tag, tier_quick=True):
     start = datetime.datetime.fromisoformat(case["start"])
     end = datetime.datetime.fromisoformat(case["end"])
     days = (end - start).days
-    pts_in = [j for j in vec if len(allowed[j]) == 1][:12]    # inside, and not in the round-off band below an edge
+    # inside, and not in the round-off band below an edge (there the bin itself is not determined, even when both bins hold
+    # the same rate)
+    pts_in = [j for j in vec if len(allowed[j]) == 1 and not orc.in_band(*pts[j])][:12]
     flags = [orc.cells[c] for c in orc.order]
     layout = orc.positions(dlo, dhi) if lay == "cart" else None
-    state = dict(factor=1, quad=None, quad_off=False, cat=None)
+    state = dict(factor=1, quad=None, quad_off=False, cat=None, array_factor=False)
     if lay == "cart" and layout is None:
         run.count("cartesian-layout:positions-unknown")
 
@@ -585,13 +777,30 @@ def run_case(run, drv, pending, case, tmpdir, tag, tier_quick=True):
                                      f"{None if exp is None else exp.tolist()!r})")
         return ok
 
+    def exp_rate(j):
+        """base rate of inside probe j x the factor in force (for an array factor: the entry of base x factor at the probe's bin)"""
+        f = state["factor"]
+        if isinstance(f, numpy.ndarray) and f.ndim > 0:
+            return float((base * f)[orc.locate(*pts[j])])
+        return float(vec[j] * f)
+
     def lookups(when, want_factor):
         if not pts_in:
             return True
         try:
-            r = fc.get_rates(numpy.array([pts[j][0] for j in pts_in]), numpy.array([pts[j][1] for j in pts_in]),
-                             numpy.array([pts[j][2] for j in pts_in]))
-            bad = [j for j, v in zip(pts_in, r) if hx(v) != hx(vec[j] * want_factor)] if len(r) == len(pts_in) else ["length"]
+            # the same points as numpy arrays, Python lists, tuples (in turn); magnitudes that are whole numbers also as
+            # an integer array
+            state["nlook"] = state.get("nlook", 0) + 1
+            # (tuples only on Cartesian regions: see AWAITING_DECISION, QuadtreeGrid2D.get_index_of returns None for a tuple)
+            box = ((numpy.array, list, tuple) if lay == "cart" else (numpy.array, list))[state["nlook"] % (3 if lay == "cart" else 2)]
+            qm = [pts[j][2] for j in pts_in]
+            if state["nlook"] % 4 == 1 and all(float(v).is_integer() for v in qm):
+                qm = numpy.array([int(v) for v in qm])
+                run.count("lookup with integer magnitudes")
+            else:
+                qm = box(qm)
+            r = fc.get_rates(box([pts[j][0] for j in pts_in]), box([pts[j][1] for j in pts_in]), qm)
+            bad = [j for j, v in zip(pts_in, r) if hx(v) != hx(exp_rate(j))] if len(r) == len(pts_in) else ["length"]
         except Exception as e:
             bad = [f"{type(e).__name__}: {e}"]
         run.count("probe:in-history", len(pts_in))
@@ -638,7 +847,7 @@ def run_case(run, drv, pending, case, tmpdir, tag, tier_quick=True):
             rates, nf = fc.target_event_rates(target_catalog(), scale=(kind == "tr1"))
             div = days if kind == "tr1" else 1
             rates = [float(v) for v in numpy.asarray(rates, dtype=float)]
-            exp = [float(numpy.float64(vec[j]) * factor) / div for j in pts_in]
+            exp = [exp_rate(j) / div for j in pts_in]
             if len(rates) != len(exp) or not all(close(a_, b_, 1e-12) for a_, b_ in zip(rates, exp)):
                 return None, f"target_event_rates(scale={kind == 'tr1'}) = {rates[:3]!r}, base rate x {factor!r} / {div} = {exp[:3]!r}"
             if not close(float(nf), math.fsum(want.ravel()) / div):
@@ -648,9 +857,30 @@ def run_case(run, drv, pending, case, tmpdir, tag, tier_quick=True):
             r = fc.get_rates(numpy.array([pts[j][0] for j in pts_in]), numpy.array([pts[j][1] for j in pts_in]),
                              numpy.array([pts[j][2] for j in pts_in]))
             rates = [float(v) for v in r]
-            if [hx(v) for v in rates] != [hx(vec[j] * factor) for j in pts_in]:
+            if [hx(v) for v in rates] != [hx(exp_rate(j)) for j in pts_in]:
                 return None, f"get_rates = {rates[:3]!r} is not base rate x {factor!r}"
             return dict(rates=rates), None
+        if kind == "gri":
+            # get_rates(..., ret_inds=True): the rates and WHERE they were read (cell index, magnitude index)
+            r, inds = fc.get_rates(numpy.array([pts[j][0] for j in pts_in]), numpy.array([pts[j][1] for j in pts_in]),
+                                   numpy.array([pts[j][2] for j in pts_in]), ret_inds=True)
+            rates = [float(v) for v in r]
+            if [hx(v) for v in rates] != [hx(exp_rate(j)) for j in pts_in]:
+                return None, f"get_rates(ret_inds=True) = {rates[:3]!r} is not base rate x {factor!r}"
+            got = [(int(a_), int(b_)) for a_, b_ in zip(inds[0], inds[1])]
+            exp = [orc.locate(*pts[j]) for j in pts_in]
+            if got != exp:
+                return None, f"get_rates(ret_inds=True) indices {got[:4]} are not (cell, magnitude bin) {exp[:4]} of the points"
+            return dict(rates=rates), None
+        if kind == "grd":
+            # get_rates(..., data=A): the lookup is made in the array handed in, at the points' (cell, magnitude bin)
+            arr = numpy.arange(base.size, dtype=float).reshape(base.shape) + 0.5
+            r = fc.get_rates(numpy.array([pts[j][0] for j in pts_in]), numpy.array([pts[j][1] for j in pts_in]),
+                             numpy.array([pts[j][2] for j in pts_in]), data=arr)
+            exp = [float(arr[orc.locate(*pts[j])]) for j in pts_in]
+            if [float(v) for v in r] != exp:
+                return None, f"get_rates(data=A) = {[float(v) for v in r][:4]!r}, A at the points' bins = {exp[:4]!r}"
+            return dict(skip=True), None
         if kind in ("sum", "ec"):
             v = float(fc.sum() if kind == "sum" else fc.event_count)
             return (dict(total=v), None) if close(v, math.fsum(want.ravel())) else (None, f"{kind} = {v!r}, expected {math.fsum(want.ravel())!r}")
@@ -685,7 +915,7 @@ def run_case(run, drv, pending, case, tmpdir, tag, tier_quick=True):
 
     def do_read(kind):
         """a read-only call, twice: right answer both times, and the forecast's rates are bit-for-bit what they were"""
-        if kind in ("tr1", "tr0", "gr") and not pts_in:
+        if kind in ("tr1", "tr0", "gr", "gri", "grd") and not pts_in:
             run.count("read-skipped:no-inside-probe")
             return dict(skip=True)
         before = snapshot()
@@ -719,10 +949,25 @@ def run_case(run, drv, pending, case, tmpdir, tag, tier_quick=True):
             if o is None:
                 return
             if not o.get("skip"):
-                enc_calls.append("r," + op[1] + ("," + str(days) if op[1] == "tr1" else ""))
-                observations.append((op[1], o))
+                kind_ = "gr" if op[1] == "gri" else op[1]
+                enc_calls.append("r," + kind_ + ("," + str(days) if kind_ == "tr1" else ""))
+                observations.append((kind_, o))
             continue
-        if op[0] == "s":
+        try:
+            if op[0] == "t":
+                t_ = datetime.datetime.fromisoformat(op[1])
+                res_t = fc.scale_to_test_date(t_.replace(tzinfo=datetime.timezone.utc) if case.get("aware") else t_)
+        except Exception as e:
+            run.oracle_failure(case, f"{op} raised {type(e).__name__}: {e}")
+            return
+        if op[0] == "s" and op[1].startswith("arr:"):
+            v = array_factor(op[1], base.shape)
+            res = fc.scale(v)
+            factor = numpy.array(v)
+            state["array_factor"] = True
+            enc_ops.append("s,1")      # place holder: the model (one rational factor) is not asked about this history
+            run.count("op:scale-by-ndarray:" + op[1].split(":")[1])
+        elif op[0] == "s":
             v = int(op[1][4:]) if op[1].startswith("int:") else fh(op[1])
             res = fc.scale(v)
             factor = v
@@ -730,11 +975,11 @@ def run_case(run, drv, pending, case, tmpdir, tag, tier_quick=True):
             run.count("op:scale")
         else:
             t = datetime.datetime.fromisoformat(op[1])
-            res = fc.scale_to_test_date(t)
+            res = res_t
             if start < t < end:
                 q = (decimal_year_exact(t + datetime.timedelta(1)) - decimal_year_exact(start)) / \
                     (decimal_year_exact(end) - decimal_year_exact(start))
-                if not close(fc._scale, q):
+                if not close(float(fc._scale), q):
                     run.oracle_failure(case, f"scale_to_test_date({t}) set the factor {fc._scale!r}, exact fraction {float(q)!r}")
                     return
                 factor = float(fc._scale)
@@ -754,12 +999,22 @@ def run_case(run, drv, pending, case, tmpdir, tag, tier_quick=True):
     data = numpy.asarray(fc.data, dtype=float)
     tot, sc, mc = float(fc.sum()), numpy.asarray(fc.spatial_counts(), dtype=float), numpy.asarray(fc.magnitude_counts(), dtype=float)
     # ---- model
+    if state["array_factor"]:
+        # histories with an ndarray factor: judged by the oracle at every step (above); the model is asked about the load only
+        enc_ops, observations = [], []
     i = drv.ask(line.replace(" OPS", " " + (";".join(enc_ops) or "-")))
+    # the same question asked of the TEXT-level model: rows, dLo, dHi are computed by the model from the characters
+    it = drv.ask(" ".join(["c11_text", "1" if case["swap"] else "0", hexs(text), line.split(" ")[5],
+                           ";".join(enc_ops) or "-"])) if text else None
     dh = float(fc.region.dh) if lay == "cart" else None
     mask = [int(v) for v in fc.region.poly_mask] if lay == "cart" else [1] * len(orc.order)
     impl = dict(dh=dh, mags=mags, ncell=int(fc.region.num_nodes), origins=origins, mask=mask, rates=impl_rates,
                 factor=fc._scale, data=[float(v) for v in data.ravel()], total=tot, spatial=[float(v) for v in sc],
                 magc=[float(v) for v in mc])
+    if state["array_factor"]:
+        impl.update(factor=1, data=[float(v) for v in base.ravel()], total=math.fsum(base.ravel()),
+                    spatial=[math.fsum(base[i_, :]) for i_ in range(base.shape[0])],
+                    magc=[math.fsum(base[:, k_]) for k_ in range(base.shape[1])])
     band = [len(a) > 1 for a in allowed]
     hist = None
     if observations:
@@ -770,7 +1025,25 @@ def run_case(run, drv, pending, case, tmpdir, tag, tier_quick=True):
         ih = drv.ask(" ".join(["c11_hist", "1" if case["swap"] else "0", frac(dlo), frac(dhi), enc_rows(case), ptsenc,
                                ";".join(enc_calls) or "-", posenc, str(ny_), str(nx_)]))
         hist = (ih, observations, fc._scale)
-    pending.append((case, i, impl, band, hist))
+    if pts_in:
+        final = [exp_rate(j) for j in pts_in]
+        qx, qy, qm = (numpy.array([pts[j][n_] for j in pts_in]) for n_ in range(3))
+        own_mags = list(orc.mags)
+
+        def still_own():
+            try:
+                m_now = [float(v) for v in numpy.asarray(fc.magnitudes)]
+                if m_now != own_mags:
+                    return f"magnitudes are now {m_now}, the file's lower magnitude edges are {own_mags}"
+                r_now = [float(v) for v in fc.get_rates(qx, qy, qm)]
+            except Exception as e:
+                return f"raised {type(e).__name__}: {e}"
+            if [hx(v) for v in r_now] != [hx(v) for v in final]:
+                return f"get_rates gives {r_now[:4]!r}, its file (x the factor in force) gives {final[:4]!r}"
+            return None
+        LIVE.append((case, still_own))
+        del LIVE[:-2]
+    pending.append((case, i, impl, band, hist, it))
     nontriv = (len(orc.order) >= 2 and len(orc.mags) >= 2) or any(r[9] != 1 for r in rows)
     run.case(summary, (tuple(tuple(r) for r in rows), json.dumps(case["ops"])) if nontriv else None)
 
@@ -811,8 +1084,15 @@ def obs_differs(kind, o, rec):
 
 def flush(run, drv, pending):
     out = drv.run()
-    for case, i, impl, band, hist in pending:
+    for case, i, impl, band, hist, it in pending:
         o = out[i]
+        if it is not None:
+            run.count("text-level model asked")
+            if out[it] != o:
+                # numpy.loadtxt + Decimal(repr()) as modelled from the characters disagree with the doubles / decimals the
+                # harness derived with Python itself (and which the implementation has just been compared with)
+                run.mismatch(case, "rows / cell-size decimals as Python reads them: " + o[:300],
+                             "text-level model (DecimalText.loadtxt, reprValue): " + out[it][:300])
         if hist is not None:
             ih, observations, fscale = hist
             recs = out[ih].split("|")
@@ -871,6 +1151,78 @@ def flush(run, drv, pending):
     pending.clear()
 
 
+# ----------------------------------------------------------------------------- option handling of load_gridded_forecast
+# Input / call classes on which the UNCHANGED code misbehaves and whose place relative to the property text is for the
+# integrator to decide (see notes/C11.md "Genuine-defect candidates"); they are not exercised meanwhile.
+AWAITING_DECISION = [
+    "GriddedForecast.get_valid_midpoints(): raises AttributeError on every forecast (reads region.bbox_max, an attribute "
+    "that does not exist; the cells flagged 1 are region.poly_mask / bbox_mask)",
+    "get_rates(lons, lats, mags) with arguments of different lengths: the documented RuntimeError is raised only when ALL "
+    "THREE lengths differ pairwise-in-sequence (`and` instead of `or`); (2, 2, 1) and (2, 1, 1) are broadcast silently",
+    "get_rates / get_index_of with TUPLE arguments on a quadtree region: QuadtreeGrid2D.get_index_of handles list, ndarray, "
+    "int, float and returns None for anything else; get_rates then evaluates data[None, idm], i.e. returns rows of the rate "
+    "array selected by the MAGNITUDE index, shape (1, n, n_mag), without any error (lists and arrays are right)",
+]
+
+
+def option_cases(run, rng, drv, tmpdir, n):
+    """which calls of csep.load_gridded_forecast are refused and which reach a loader (csep/__init__.py:455-475), compared with
+    ForecastFile.loadDispatch at the granularity refused / loaded-by-the-caller's-loader / loaded-by-load_ascii.  The class of
+    the exception is only recorded."""
+    import csep
+    from csep.core.forecasts import GriddedForecast
+    good = "10.0 10.1 20.0 20.1 0.0 30.0 5.0 5.1 0.5 1\n10.0 10.1 20.0 20.1 0.0 30.0 5.1 5.2 0.25 1\n"
+    asked = []
+    for k in range(n):
+        ext = rng.choice(["dat", "dat", "xml", "h5", "bin", "txt", "csv", "", "dat2", "xml.dat", "dat.xml"])
+        exists = rng.random() < 0.85
+        lk = rng.choice(["none", "none", "callable", "callable", "notcallable", "returns-nonforecast"])
+        fn = os.path.join(tmpdir, f"opt{k}" + ("." + ext if ext else ""))
+        if exists:
+            with open(fn, "w") as f:
+                f.write(good)
+        called = {}
+
+        def loader(fname, **kw):
+            called["yes"] = True
+            if lk == "returns-nonforecast":
+                return rng.choice([None, (1, 2, 3), numpy.zeros((1, 2))])
+            return GriddedForecast.load_ascii(fname, **kw)
+        arg = dict(none=None, callable=loader, notcallable=rng.choice([3, "load_ascii", [1], 2.5])).get(lk, loader)
+        try:
+            fc = csep.load_gridded_forecast(fn, loader=arg)
+            got = "loader" if called else "ascii"
+            if not isinstance(fc, GriddedForecast) or float(fc.sum()) != 0.75 or \
+                    float(fc.get_rates(numpy.array([10.05]), numpy.array([20.05]), numpy.array([5.15]))[0]) != 0.25:
+                run.oracle_failure(dict(kind="load_gridded_forecast options", ext=ext, exists=exists, loader=lk),
+                                   "a call that was accepted did not return the forecast of the file")
+        except Exception as e:
+            got = "refused"
+            run.count("option-refusal:" + type(e).__name__)
+        finally:
+            if exists:
+                os.unlink(fn)
+        run.count("load_gridded_forecast options:" + got)
+        last_ext = os.path.splitext(fn)[-1][1:]
+        i = drv.ask(" ".join(["c11_dispatch", "1" if exists else "0", hexs(last_ext),
+                              "none" if lk == "none" else ("notcallable" if lk == "notcallable" else "callable")]))
+        j = drv.ask("c11_name " + hexs(fn))
+        asked.append((dict(kind="load_gridded_forecast options", ext=ext, exists=exists, loader=lk), i, got, lk, j, last_ext))
+    return asked
+
+
+def option_flush(run, out, asked):
+    for case, i, got, lk, j, last_ext in asked:
+        m = out[i]
+        want = "refused" if m.endswith("Error") else m
+        if lk == "returns-nonforecast" and want == "loader":
+            want = "refused"          # final isinstance check (csep/__init__.py:474)
+        if got != want:
+            run.mismatch(case, got, m)
+        if out[j].split(",")[1] != hexs(last_ext):
+            run.mismatch(dict(case, what="os.path.splitext"), last_ext, out[j])
+
+
 # ----------------------------------------------------------------------------- entry points
 def corpus_cases():
     d = os.path.join(os.path.dirname(os.path.dirname(os.path.abspath(__file__))), "corpus", "C11")
@@ -892,9 +1244,20 @@ def run(run, rng, tier):
     run.assumptions.append("forecast periods are >= 31 days so the float decimal-year fraction agrees with the exact one to 1e-9")
     drv, pending = Driver(), []
     n = 0
+    LIVE.clear()
+    # the text layer (decimal token -> double, repr -> decimal, int()) against the running Python / numpy
+    run.extra["text_tokens_compared"] = c11_text.token_stream(run, rng, 1500 if tier == "quick" else 20000)
+    run.extra["awaiting_decision"] = AWAITING_DECISION
     with tempfile.TemporaryDirectory(prefix="c11_") as tmp:
+        odrv = Driver()
+        asked = option_cases(run, rng, odrv, tmp, 60 if tier == "quick" else 600)
+        option_flush(run, odrv.run(), asked)
         for c in corpus_cases():
-            run_case(run, drv, pending, c, tmp, "corpus%d" % n)
+            if c.get("kind") == "two-loads":       # two files loaded one after the other in one process
+                run_case(run, drv, pending, c["first"], tmp, "corpus%da" % n)
+                run_case(run, drv, pending, c["second"], tmp, "corpus%db" % n)
+            else:
+                run_case(run, drv, pending, c, tmp, "corpus%d" % n)
             n += 1
         nfiles = 1200 if tier == "quick" else 12000
         for _ in range(nfiles):
@@ -907,6 +1270,10 @@ def run(run, rng, tier):
                 case = gen_quad_case(rng, tier, "qcsv")
             run_case(run, drv, pending, case, tmp, str(n), tier_quick=(tier == "quick"))
             n += 1
+            if case["layout"] == "cart" and not case["malformed"] and rng.random() < 0.2:
+                run.count("sibling file: same cells, other magnitude bins")
+                run_case(run, drv, pending, sibling_case(rng, case, tier), tmp, str(n) + "s", tier_quick=(tier == "quick"))
+                n += 1
             if len(pending) >= 400:
                 flush(run, drv, pending)
                 drv = Driver()
@@ -916,6 +1283,24 @@ def run(run, rng, tier):
 def replay(run, payload):
     drv, pending = Driver(), []
     case = payload["case"]
+    LIVE.clear()
+    if isinstance(case, dict) and case.get("kind") in c11_text.TOKEN_KINDS:
+        c11_text.replay_token(run, case)
+        return
+    if isinstance(case, dict) and case.get("kind") == "two-loads":
+        LIVE.clear()
+        with tempfile.TemporaryDirectory(prefix="c11_") as tmp:
+            run_case(run, drv, pending, case["first"], tmp, "replay1")
+            run_case(run, drv, pending, case["second"], tmp, "replay2")
+        flush(run, drv, pending)
+        return
+    if isinstance(case, dict) and case.get("kind") == "load_gridded_forecast options":
+        import random
+        with tempfile.TemporaryDirectory(prefix="c11_") as tmp:
+            odrv = Driver()
+            asked = option_cases(run, random.Random(payload.get("seed", 0)), odrv, tmp, 200)
+            option_flush(run, odrv.run(), asked)
+        return
     if "probes" in payload.get("all_probes", {}):
         case = dict(case, probes=payload["all_probes"]["probes"])
     with tempfile.TemporaryDirectory(prefix="c11_") as tmp:
